@@ -1173,4 +1173,24 @@ def r_c16_select(p):
     return res
 
 
-HANDLERS = {"c16": r_c16, "c16_select": r_c16_select, "c02_table": r_c02_table, "c14": r_c14, "c14_table": r_c14_table, "c19": r_c19, "c13": r_c13, "c13_text": r_c13_text, "c13_except": r_c13_except, "c17": r_c17, "c08": r_c08, "c10": r_c10, "c11": r_c11, "c15": r_c15, "c12": r_c12, "c12_raw": r_c12_raw, "c18": r_c18, "parse_step": r_parse_step, "parse_pre": r_parse_pre, "mandatory": r_mandatory, "parse_comm": r_parse_comm, "relational": r_relational, "c09": r_c09, "macrovector4": r_macrovector4, "c07_single": r_c07_single, "c07_pair": r_c07_pair, "c07_foreign": r_c07_foreign}
+def r_c16_answer(p):
+    """witness of the free-answer lemma: the answer typed (bare and padded with white space) at
+    the question for one metric, followed by a legal answer; all other questions answered legally"""
+    from spec import grammar
+
+    vkey = {2: "2", 3: "3.1", 4: "4.0"}[p["version"]]
+    version, g, order, prefix = _interactive_metrics(vkey, True)
+    res = None
+    for ans in (p["answer"], " " + p["answer"] + "\t"):
+        answers = []
+        for m_ in order:
+            if m_ == p["metric"]:
+                answers.append(ans)
+            answers.append(grammar.legal(g, m_)[0])
+        res = r_c16({"version": vkey, "all_metrics": True, "answers": answers})
+        if res.get("violates"):
+            return res
+    return res
+
+
+HANDLERS = {"c16_answer": r_c16_answer, "c16": r_c16, "c16_select": r_c16_select, "c02_table": r_c02_table, "c14": r_c14, "c14_table": r_c14_table, "c19": r_c19, "c13": r_c13, "c13_text": r_c13_text, "c13_except": r_c13_except, "c17": r_c17, "c08": r_c08, "c10": r_c10, "c11": r_c11, "c15": r_c15, "c12": r_c12, "c12_raw": r_c12_raw, "c18": r_c18, "parse_step": r_parse_step, "parse_pre": r_parse_pre, "mandatory": r_mandatory, "parse_comm": r_parse_comm, "relational": r_relational, "c09": r_c09, "macrovector4": r_macrovector4, "c07_single": r_c07_single, "c07_pair": r_c07_pair, "c07_foreign": r_c07_foreign}
